@@ -806,7 +806,7 @@ fn run_phases(s: &mut Sim, ks: &[u32]) -> Result<(), Fail> {
             for i in 0..wn {
                 s.send(Frame { replica: rep, sbn: b as u8, esi: ks[b] + ws + i })?;
             }
-            if ks[b] <= 420 && s.r.chance(1, 6) {
+            if ks[b] <= 420 && s.r.chance(if ks[b] >= 200 { 3 } else { 1 }, 6) {
                 // adversarial redundancy: single-packet requests for both members of a few "twin"
                 // pairs (repair symbols with identical LT rows), so that receivers hold >= K symbols
                 // of deficient rank far more often than chance alone would give
